@@ -56,6 +56,8 @@ def cases(tier, seed):
     for dsn in b['datasets']:
         for ini in INITS:
             out.append(('MMC/%s/%s/full' % (dsn, ini), ('full', dsn, ini, b['K'], seed)))
+            if ini == 'array':
+                out.append(('MMC/%s/array_float32/full' % dsn, ('f32', dsn, ini, b['K'], seed)))
             if ini != 'array_F':
                 out.append(('MMC/%s/%s/diagonal' % (dsn, ini), ('diag', dsn, ini, b['K'], seed)))
                 out.append(('MMC_Supervised/%s/%s' % (dsn, ini), ('sup', dsn, ini, b['K'], seed)))
@@ -159,10 +161,59 @@ def run_case(spec):
     P, y = ds.pairs.copy(), ds.ypairs.copy()
     iv = init_value(ini, d)
     pristine = iv.copy() if isinstance(iv, np.ndarray) else iv
-    if kind in ('full', 'diag'):
+    if kind in ('full', 'diag', 'f32'):
         A0, _ = priors.prior_matrix(np.array(pristine) if isinstance(pristine, np.ndarray) else pristine, P, d, seed=1)
         pos_diff = P[y == 1][:, 0] - P[y == 1][:, 1]
         neg_diff = P[y == -1][:, 0] - P[y == -1][:, 1]
+    if kind == 'f32':
+        # the SPD array option in single precision: the iterations start from it all the same (judged with single-precision
+        # tolerances, and against the run that starts from the double-precision copy of the same numbers)
+        site = 'MMC.fit'
+        tr = ['init=array_float32']
+        A0 = np.array(pristine, dtype=float)
+        assert np.array_equal(A0.astype(np.float32).astype(float), A0)
+        pos_diff = P[y == 1][:, 0] - P[y == 1][:, 1]
+        neg_diff = P[y == -1][:, 0] - P[y == -1][:, 1]
+        W = np.einsum('ij,ik->jk', pos_diff, pos_diff)
+        t = W.ravel().dot(A0.ravel()) / 100.0
+        R0, _ = reference_projection(A0, W, t)
+        if (W.ravel().dot(R0.ravel()) - t) / t >= 0.01:
+            return dict(evals=0, sigs=[], viol=[], states=0, transitions=0, stats={'skipped_first_projection_does_not_converge': 1})
+        for mi in (1, 2, 5, K):
+            i32 = A0.astype(np.float32)
+            try:
+                e32 = ml.MMC(init=i32, max_iter=mi, random_state=1).fit(P.copy(), y.copy())
+                e64 = ml.MMC(init=A0.copy(), max_iter=mi, random_state=1).fit(P.copy(), y.copy())
+            except Exception as e:
+                viol.append(V(site, 'raises', 'float32 SPD array init: fit raised %s: %s' % (type(e).__name__, str(e)[:120]), tr))
+                break
+            evals += 2
+            states += 1
+            trans += 2
+            if not np.array_equal(i32, A0.astype(np.float32)):
+                viol.append(V(site, 'mutates_init', 'the float32 init array was modified by fit', tr))
+            M32, M64 = np.asarray(e32.get_mahalanobis_matrix(), dtype=float), e64.get_mahalanobis_matrix()
+            if not np.isfinite(M32).all():
+                viol.append(V(site, 'not_finite', 'float32 init: learned matrix contains NaN / inf', tr))
+                break
+            s32 = np.einsum('ij,jk,ik->', pos_diff, M32, pos_diff)
+            stats['worst_budget_ratio'] = max(stats['worst_budget_ratio'], s32 / t)
+            if s32 > 1.0102 * t:
+                viol.append(V(site, 'budget_exceeded', 'float32 init: sum of squared learned distances over the similar pairs is %.4f x the budget '
+                              '[max_iter=%d]' % (s32 / t, mi), tr, ratio=s32 / t))
+            lam = np.linalg.eigvalsh((M32 + M32.T) / 2)
+            if lam.min() < -64 * d * float(np.finfo(np.float32).eps) * np.abs(M32).max():
+                viol.append(V(site, 'not_psd', 'float32 init: learned matrix has eigenvalue %.3g' % lam.min(), tr))
+            dev = np.abs(M32 - M64).max() / max(np.abs(M64).max(), 1e-300)
+            stats['worst_f32_vs_f64'] = max(stats.get('worst_f32_vs_f64', 0.0), dev / 1e-3)
+            if mi == 1 and dev > 1e-3:
+                viol.append(V(site, 'not_projection_of_init', 'float32 init: after one iteration the result differs from the run started from the '
+                              'double-precision copy of the same matrix by %.3g relative' % dev, tr))
+            sigs.add((dsn, 'array_float32', mi, round(float(s32 / t), 3)))
+        return dict(evals=evals, sigs=sigs, viol=viol, states=states, transitions=trans,
+                    stats={k: v for k, v in stats.items() if not k.startswith('worst_')},
+                    headroom={k: v for k, v in stats.items() if k.startswith('worst_')},
+                    sample={'learner': 'MMC', 'dataset': dsn, 'init': 'SPD array as float32', 'budgets': [1, 2, 5, K]})
     if kind == 'full':
         site = 'MMC.fit'
         tr = ['init=' + ini]
